@@ -321,6 +321,9 @@ func init() {
 		}
 		lst := tourAll(run, lgs, 0)
 		fmt.Printf("C13: session model %d states; %d/%d transitions of the %d LMTP configurations replayed on the real server\n", smc.Distinct, lst.Covered, lst.Edges, len(lgs))
+		// a delivery that outlives its aborted transfer must not write into the next transfer's statuses
+		vst, vsc := verdictFamily(run)
+		fmt.Printf("C13: Verdict.tla %d states; %d gated stale-verdict schedules (SMTP and LMTP, plain and per-recipient backends) validated by TLC\n", vst, vsc)
 		fmt.Printf("C13: Lmtp.tla %d states (no deadlock, termination); %d backend programs run on the real LMTP server, %d judged by TLC, %d rejected\n", mc.Distinct, len(cases), len(good), nbad)
 		samples := []interface{}{}
 		if len(good) > 2 {
